@@ -244,20 +244,21 @@ def model_vo_targets():
     return sorted(set('%s/%s.vo' % m for m in mods))
 
 
-def run_lines(exe, lines, timeout=300, shards=1, solo_timeout=60, max_timeouts=3):
+def run_lines(exe, lines, timeout=300, shards=1, solo_timeout=60, max_timeouts=3, deadline=None):
     """Feed case lines to an executable, return output lines (one per case).  A process that dies or stops answering is
     restarted on the unanswered cases; the first unanswered case is then decided on its own with `solo_timeout` ('timeout' /
     'crash(..)' if it does not answer), so that a slow machine is not mistaken for a hang and one bad case does not hide the
     others.  After `max_timeouts` cases of a shard were decided as 'timeout' the remaining cases of that shard are not run
     ('not-run'): a tree on which many cases hang is reported in minutes, not hours (every abnormal answer is reported by the
-    runner, so nothing is hidden by stopping early)."""
+    runner, so nothing is hidden by stopping early).  `deadline` (seconds, per shard): cases not started by then are 'not-run' too --
+    for trees on which many cases are very slow without hanging."""
     if not lines:
         return []
     if shards > 1 and len(lines) >= 4 * shards:
         import concurrent.futures
         chunks = [lines[i::shards] for i in range(shards)]
         with concurrent.futures.ThreadPoolExecutor(shards) as ex:
-            outs = list(ex.map(lambda c: run_lines(exe, c, timeout, 1, solo_timeout, max_timeouts), chunks))
+            outs = list(ex.map(lambda c: run_lines(exe, c, timeout, 1, solo_timeout, max_timeouts, deadline), chunks))
         res = [None] * len(lines)
         for k, o in enumerate(outs):
             res[k::shards] = o
@@ -266,12 +267,15 @@ def run_lines(exe, lines, timeout=300, shards=1, solo_timeout=60, max_timeouts=3
     rest = list(lines)
     restarts = 0
     timeouts = 0
+    t_end = None if deadline is None else time.time() + deadline
     while rest:
-        if max_timeouts is not None and timeouts >= max_timeouts:
+        if (max_timeouts is not None and timeouts >= max_timeouts) or (t_end is not None and time.time() >= t_end):
             res += ['not-run'] * len(rest)
             break
         # generous until a case has really hung on its own; after that the shard is known to contain hangs
         budget = max(timeout, 60 + 0.5 * len(rest)) if timeouts == 0 else max(60, 20 + 0.1 * len(rest))
+        if t_end is not None:
+            budget = max(5, min(budget, t_end - time.time()))
         out, timed_out, rc = _run_once(exe, rest, budget)
         res += out
         if len(out) == len(rest):
